@@ -53,6 +53,7 @@ PushVerdicts(e, sl) ==
     (IF e.read_err # "" THEN <<<<"C01", "read-failed">>>>
      ELSE IF e.read_s # e.v_s THEN <<<<"C01", "read-differs">>>> ELSE <<>>)
     \o (IF e.item_form /\ (e.read_err # "" \/ e.read_s # e.v_s) THEN <<<<"C20", "read-item-form-reads-differently">>>> ELSE <<>>)
+    \o (IF e.bad_utf8 THEN <<<<"C04", "invalid-utf8-handed-out">>>> ELSE <<>>)
     \o (IF ~e.stable THEN <<<<"C02", "earlier-read-changed">>>> ELSE <<>>)
     \o (IF e.n_before # sl.n THEN <<<<"C01", "live-count-differs">>>> ELSE <<>>)
     \o (IF meta.dense /\ e.idx_num # sl.n THEN <<<<"C12", "index-not-dense">>>> ELSE <<>>)
